@@ -7,6 +7,11 @@ HARNESSES = [
     bounds='AGGRprint_bound for bound %d: resolved bound in {integer literal 0..99, "?", non-literal reference with arbitrary pointer payload}; second run with a different payload' % nr,
     stubs=['fprintf: structured capture (statement recognised by its format literal, integer and first bytes of string arguments recorded)', 'EXPRto_string: fixed text', 'Type_* globals: harness objects'],
     out_of_claim='run-time bounds (attribute references), UNIQUE/OPTIONAL element flags and everything reached through TYPEget_* (a CBMC front-end quirk with the Scope_ union, see DESIGN.md), entity/attribute descriptors, that the emitted C++ compiles') for nr in (1, 2)
+] + [
+  H('aggr_init', 'c', 'harness/C02/h_aggrfull.c', repo_srcs=['src/exp2cxx/classes_type.c'], unwind=60, object_bits=10, cflags=['-I/repo/src/exp2cxx', '-fno-builtin'], shadow_scope=True,
+    bounds='AGGRprint_init on one aggregate type: lower bound literal 0..99, upper bound in {literal 0..99, "?", non-literal reference (arbitrary pointer payload, result type unset/INTEGER/other), absent}, UNIQUE/OPTIONAL symbolic; second copy at other addresses',
+    stubs=['fprintf: structured capture', 'EXPRto_string / ClassName: fixed text', 'Type_* globals: harness objects', 'shadow copy of include/express/*.h with Scope_.u as a struct (works around a CBMC simplifier bug on non-first union members read through a pointer; native replay uses the real headers)'],
+    out_of_claim='run-time bounds (attribute references), nested aggregates, that the emitted C++ compiles'),
 ]
 JOBS = 6
 MANIFEST = {
